@@ -279,6 +279,9 @@ func (e *exec) field(objType string, source interface{}, fd *model.FieldDef, g *
 // and null must be put at this position (the caller decides about propagation from the
 // nullability of the position it owns).
 func (e *exec) complete(t model.TypeRef, raw interface{}, g *group, path []interface{}) (interface{}, bool) {
+	if et, ok := raw.(ElemThunk); ok {
+		raw = et.V // a deferred list element completes to what it yields
+	}
 	if t.NonNull() {
 		v, ok := e.complete(t.Inner(), raw, g, path)
 		if !ok {
